@@ -101,6 +101,7 @@ type Frame struct {
 type retState struct {
 	st      *State
 	results []Val
+	pos     token.Pos
 }
 type panicState struct {
 	st  *State
@@ -230,10 +231,10 @@ func (vc *VC) mergeStates(sts []*State, hint string) *State {
 	conds := make([]Term, len(sts))
 	var rs []Term
 	for i, s := range sts {
-		conds[i] = vc.Define("e."+hint, s.reach)
+		conds[i] = vc.DefineAlways("e."+hint, s.reach)
 		rs = append(rs, conds[i])
 	}
-	out.reach = vc.Define("r."+hint, Or(rs...))
+	out.reach = vc.DefineAlways("r."+hint, Or(rs...))
 	if isAtom(out.reach.S) {
 		var names []string
 		for _, c := range conds {
@@ -535,7 +536,7 @@ func (fr *Frame) execBlock(b *ssa.BasicBlock, st *State, deliver func(from, to *
 				rs = append(rs, fr.val(r))
 			}
 			if fr.vc.dry == 0 || fr.parent != nil {
-				fr.rets = append(fr.rets, retState{st, rs})
+				fr.rets = append(fr.rets, retState{st, rs, x.Pos()})
 			}
 			return
 		case *ssa.Panic:
